@@ -374,6 +374,79 @@ pub fn gen_mux(seed: u64) -> Scenario {
             start_delay_ms: 0,
         });
     }
+    // Sometimes: a search whose stream is still being read is abandoned from another handle; the server goes on
+    // sending entries for a while all the same. The reader must get an error, never one of the late entries.
+    if !recycle && r.chance(1, 6) {
+        let stok = format!("vs{}", sc.clients.len());
+        // delivery time = emission time: what the server sends at once is there before the abandon
+        sc.knobs.net_delay_max_ms = 0;
+        let k = 1 + r.usize(2);
+        let mut items: Vec<ItemPlan> = (0..k).map(|i| ItemPlan { gap_ms: 0, op: gen_item(&mut r, &format!("{stok}:i{i}")), ctrls: None }).collect();
+        for i in 0..1 + r.usize(3) {
+            items.push(ItemPlan { gap_ms: if i == 0 { 60 } else { 3 }, op: gen_item(&mut r, &format!("{stok}:late{i}")), ctrls: None });
+        }
+        sc.plan.by_token.insert(stok.clone(), ReplyPlan::Items { items, done: None, extra: vec![] });
+        let mut a = ClientScript::default();
+        a.steps.push(Step::Open { token: stok.clone(), slot: 0, search: simple_search(&stok, &mut r), adapter: if r.chance(1, 2) { Adapter::Direct } else { Adapter::EntriesOnly }, mods: Mods::default() });
+        // EntriesOnly skips what is not an entry: read only what the early items are sure to yield, then one more
+        // call that is still waiting when the abandon comes
+        let early_entries = match sc.plan.by_token.get(&stok) {
+            Some(ReplyPlan::Items { items, .. }) => items.iter().take(k).filter(|it| matches!(it.op, RespOp::Entry { .. })).count(),
+            _ => 0,
+        };
+        let direct = matches!(a.steps[0], Step::Open { adapter: Adapter::Direct, .. });
+        for _ in 0..if direct { k } else { early_entries } {
+            a.steps.push(Step::Next { slot: 0, cancel_after_polls: None });
+        }
+        a.steps.push(Step::Next { slot: 0, cancel_after_polls: None });
+        a.steps.push(Step::State { slot: 0 });
+        a.steps.push(Step::Finish { slot: 0 });
+        sc.clients.push(a);
+        sc.clients.push(ClientScript {
+            // after everything sent at once has arrived (no network delay in these runs), before the late items (60 ms)
+            steps: vec![Step::Sleep { ms: 25 }, Step::Op { token: format!("{stok}ab"), op: OpSpec::Abandon(IdRef::Token(stok)), mods: Mods::default(), cancel_after_polls: None }],
+            start_delay_ms: 0,
+        });
+    }
+    // Sometimes (single handle, nothing else going on): the start of a search is dropped while its request is still
+    // queued, then the counter is put back so that the next operation is given the same ID. Nothing of the dropped
+    // search may stand in the way of that operation's reply.
+    if !recycle && sc.clients.len() == 1 && r.chance(1, 8) {
+        let start = *r.pick(&[5000i32, 300_000]);
+        let dtok = "stale0".to_string();
+        sc.plan.by_token.insert(dtok.clone(), gen_items_plan(&mut r, &dtok, 2, true, &[0]));
+        // half of the time the driver is certainly busy when the call is dropped: another handle's request is being
+        // written to a peer that does not read for the first 5 ms
+        let busy = r.chance(1, 2);
+        if busy {
+            sc.knobs.write_quota = 0;
+            sc.knobs.write_pending_pm = 0;
+            sc.knobs.write_stall = Some((0, 5));
+            let btok = "stale-busy".to_string();
+            let op = gen_single_op(&mut r, &btok);
+            let plan = gen_single_plan(&mut r, &op, &btok, &[0], false);
+            sc.plan.by_token.insert(btok.clone(), plan);
+            sc.clients.push(ClientScript { steps: vec![Step::Op { token: btok, op, mods: Mods::default(), cancel_after_polls: None }], start_delay_ms: 0 });
+        }
+        let mut pre = vec![
+            Step::Sleep { ms: 1 },
+            Step::SetIdCounter { last: start },
+            Step::OpenDropped { token: dtok.clone(), search: simple_search(&dtok, &mut r), polls: 1 },
+            Step::Sleep { ms: 10 },
+            Step::SetIdCounter { last: start },
+        ];
+        let otok = "stale1".to_string();
+        let op = gen_single_op(&mut r, &otok);
+        let plan = gen_single_plan(&mut r, &op, &otok, &[0, 2], false);
+        sc.plan.by_token.insert(otok.clone(), plan);
+        pre.push(Step::Op { token: otok, op, mods: Mods::default(), cancel_after_polls: None });
+        pre.push(Step::Sleep { ms: 5 });
+        let cs = &mut sc.clients[0];
+        let rest = std::mem::take(&mut cs.steps);
+        cs.steps = pre;
+        cs.steps.extend(rest);
+        cs.start_delay_ms = 0;
+    }
     // Sometimes: a search stays outstanding (it has delivered items, the server never finishes it) while the
     // shared ID counter comes round to just below its ID - the state a long history of allocations produces.
     let mut moved_counter = false;
@@ -647,6 +720,12 @@ pub fn gen_leak(seed: u64) -> Scenario {
     sc.knobs = gen_knobs(&mut r, false);
     // timing model: delivery time = emission time
     sc.knobs.net_delay_max_ms = 0;
+    if r.chance(1, 6) {
+        // the peer stops reading for a while: requests queue up in (or block) the driver while callers time out
+        sc.knobs.write_quota = 0;
+        sc.knobs.write_pending_pm = 0;
+        sc.knobs.write_stall = Some((r.usize(300), *r.pick(&[3, 20, 200])));
+    }
     let nclients = 1 + r.usize(3);
     let rounds = 1 + r.usize(5);
     let mut scripts: Vec<ClientScript> = (0..nclients).map(|_| ClientScript::default()).collect();
@@ -668,11 +747,13 @@ pub fn gen_leak(seed: u64) -> Scenario {
         extra_empty_last_page: r.chance(1, 4),
         stall_at_page: stall,
         paged_ctrl_pos: None,
+        constant_cookie: false,
     });
     let mut slot_ctr = vec![0usize; nclients];
     for round in 0..rounds {
         // optional in-flight abandon between client 0 and client 1
-        let inflight = nclients >= 2 && r.chance(1, 3);
+        // (the abandoner learns the victim's ID from the server's log: not while the peer has stopped reading)
+        let inflight = nclients >= 2 && r.chance(1, 3) && sc.knobs.write_stall.is_none();
         for c in 0..nclients {
             let n = 1 + r.usize(5);
             if inflight && c == 0 {
@@ -1023,6 +1104,15 @@ pub fn gen_ids(seed: u64) -> Scenario {
         for _ in 0..=k {
             a.steps.push(Step::Next { slot: 0, cancel_after_polls: None });
         }
+        // Variant: the stream is finished at once (its ID is free again) and finished a second time later, while
+        // the operation that was given the ID meanwhile is in flight: the second finish() must not touch anything.
+        let double_finish = r.chance(1, 2);
+        if double_finish {
+            if let Some(ReplyPlan::Items { extra, .. }) = sc.plan.by_token.get_mut(&stok) {
+                extra.clear();
+            }
+            a.steps.push(Step::Finish { slot: 0 });
+        }
         a.steps.push(Step::Sleep { ms: 20 });
         a.steps.push(Step::SetIdCounterBefore { token: stok.clone(), back: 1 });
         a.steps.push(Step::Sleep { ms: 20 });
@@ -1087,6 +1177,7 @@ pub fn gen_time(seed: u64) -> Scenario {
         extra_empty_last_page: false,
         stall_at_page: stall,
         paged_ctrl_pos: None,
+        constant_cookie: false,
     });
     let nclients = 1 + r.usize(3);
     for c in 0..nclients {
@@ -1686,6 +1777,7 @@ pub fn gen_paged(seed: u64) -> Scenario {
         extra_empty_last_page: r.chance(1, 4),
         stall_at_page: None,
         paged_ctrl_pos: if r.chance(1, 2) { Some(r.usize(5)) } else { None },
+        constant_cookie: r.chance(1, 6),
     });
     let nclients = if r.chance(1, 4) { 2 } else { 1 };
     for c in 0..nclients {
@@ -1753,6 +1845,9 @@ pub fn gen_sync(seed: u64) -> Scenario {
         }
         if r.chance(1, 6) {
             cs.steps.push(Step::Probe);
+        }
+        if r.chance(1, 6) {
+            cs.steps.push(Step::ProbeCert);
         }
         let mut mods = if r.chance(1, 2) { gen_mods(&mut r) } else { Mods::default() };
         let tok = format!("#{arrival}");
@@ -1847,6 +1942,9 @@ pub fn gen_sync(seed: u64) -> Scenario {
     if !idle_close && r.chance(1, 4) && arrival > 0 {
         sc.plan.close_on_arrival = Some(r.usize(arrival));
     }
+    if r.chance(1, 3) {
+        cs.steps.push(Step::ProbeCert);
+    }
     // One script in six ends with a paged search (its follow-up requests would shift the arrival numbers the
     // plans of later calls are keyed by, so it comes last): last_id() of the stream follows the current page.
     if r.chance(1, 6) {
@@ -1865,6 +1963,7 @@ pub fn gen_sync(seed: u64) -> Scenario {
             extra_empty_last_page: r.chance(1, 4),
             stall_at_page: None,
             paged_ctrl_pos: None,
+        constant_cookie: false,
         });
         let tok = "pgd".to_string();
         sc.plan.by_token.insert(tok.clone(), ReplyPlan::Paged);
@@ -1956,7 +2055,7 @@ pub fn gen_hostile_item(r: &mut Rng, search: bool, n_ids: usize) -> Hostile {
     let mut bytes = Vec::new();
     let mut spans = Vec::new();
     encode_map(&tlv, 0, &mut bytes, &mut spans);
-    let h = |class: &str, bytes: Vec<u8>, must_end: bool| Hostile { before_emission: 0, class: class.to_string(), bytes, must_end, nest: None, outer_inflated: false, gap_after_ms: 0 };
+    let h = |class: &str, bytes: Vec<u8>, must_end: bool| Hostile { before_emission: 0, class: class.to_string(), bytes, must_end, nest: None, outer_inflated: false, gap_after_ms: 0, nest_tag: 0 };
     let inner: Vec<Span> = spans.iter().filter(|s| s.depth >= 1).cloned().collect();
     match r.below(30) {
         0 => {
@@ -2077,7 +2176,8 @@ pub fn gen_hostile_item(r: &mut Rng, search: bool, n_ids: usize) -> Hostile {
         }
         18 | 19 => {
             let depth = *r.pick(&[10u32, 100, 1000, 10_000, 100_000, 200_000]);
-            Hostile { nest: Some((depth, id, r.chance(1, 2))), ..h(&format!("nesting-depth-{depth}"), vec![], false) }
+            // nests of SEQUENCEs, SETs, context- and application-class constructed elements
+            Hostile { nest: Some((depth, id, r.chance(1, 2))), nest_tag: *r.pick(&[0x30u8, 0x30, 0xA0, 0x61, 0x31, 0xA3]), ..h(&format!("nesting-depth-{depth}"), vec![], false) }
         }
         20..=24 => {
             // control list mutations
@@ -2320,7 +2420,9 @@ pub fn gen_estab_tls(seed: u64) -> Scenario {
             // any non-zero code, with the codes some helper of the library treats as "not an error" well represented
             40..=56 => StartTlsResp::Code(*r.pick(&[10, 10, 10, 5, 6, 14, 1, 2, 8, 13, 49, 52, 53, 80, 118, 4096, 2147483648, 4294967295])),
             57..=59 => StartTlsResp::CodeWide(*r.pick(&[1u64 << 32, (1u64 << 32) + 10, 1u64 << 40])),
-            60..=67 => StartTlsResp::Garbage,
+            60..=63 => StartTlsResp::Garbage,
+            64..=65 => StartTlsResp::NoticeThenClose,
+            66..=67 => StartTlsResp::NoticeThenSuccess,
             68..=75 => StartTlsResp::Close,
             76..=83 => StartTlsResp::Silent,
             _ => StartTlsResp::SuccessPlusInjected,
@@ -2334,7 +2436,7 @@ pub fn gen_estab_tls(seed: u64) -> Scenario {
         2 => TlsBehaviour::Silent,
         _ => TlsBehaviour::Good,
     };
-    if st == StartTlsResp::Silent || (tls == TlsBehaviour::Silent && matches!(st, StartTlsResp::Success | StartTlsResp::SuccessPlusInjected)) {
+    if st == StartTlsResp::Silent || (tls == TlsBehaviour::Silent && matches!(st, StartTlsResp::Success | StartTlsResp::SuccessPlusInjected | StartTlsResp::NoticeThenSuccess)) {
         c.conn_timeout_ms = Some(*r.pick(&[50, 1000, 30_000]));
     }
     c.peer = Peer::Tls { starttls: st.clone(), tls };
@@ -2369,6 +2471,7 @@ pub fn gen_paged_fault_base(seed: u64) -> Scenario {
         extra_empty_last_page: r.chance(1, 4),
         stall_at_page: None,
         paged_ctrl_pos: None,
+        constant_cookie: false,
     });
     let tok = "c0p0".to_string();
     sc.plan.by_token.insert(tok.clone(), ReplyPlan::Paged);
@@ -2389,19 +2492,25 @@ pub fn gen_paged_fault_base(seed: u64) -> Scenario {
 pub fn gen_realio(seed: u64) -> Scenario {
     use crate::realio::{Ending, RealCase, Transport};
     let mut r = Rng::new(seed);
-    let transport = *r.pick(&[Transport::Tcp, Transport::TcpPre, Transport::UnixUrl, Transport::UnixPair, Transport::Ldaps, Transport::StartTls]);
+    let transport = *r.pick(&[Transport::Tcp, Transport::TcpPre, Transport::UnixUrl, Transport::UnixPair, Transport::Ldaps, Transport::StartTls, Transport::StartTlsPre]);
     let sync_api = r.chance(1, 4);
     let tcp_based = !matches!(transport, Transport::UnixUrl | Transport::UnixPair);
     let pending = if sync_api { 1 } else { 1 + r.usize(4) };
-    let ending = match r.below(if tcp_based { 6 } else { 5 }) {
+    let ending = match r.below(if tcp_based { 7 } else { 5 }) {
         0 => Ending::Unbind,
         1 => Ending::DropHandles,
         2 => Ending::PeerClose { pending },
         3 => Ending::PeerGarbage { pending },
         4 => Ending::PeerCloseIdle,
+        5 => Ending::PeerCloseAtAccept,
         _ => Ending::PeerReset { pending },
     };
-    let case = RealCase { transport, warmup: r.usize(4), ending, sync_api };
+    let mut case = RealCase { transport, warmup: r.usize(4), ending, sync_api };
+    if r.chance(1, 12) {
+        // the single-exchange driver turn of StartTLS meeting a stream that is already at its end: which of its
+        // ready events the driver looks at first is a coin toss each time, so this corner gets cases of its own
+        case = RealCase { transport: Transport::StartTlsPre, warmup: 0, ending: Ending::PeerCloseAtAccept, sync_api: false };
+    }
     let mut sc = Scenario::new("REALIO");
     sc.note = serde_json::to_string(&case).unwrap();
     sc
